@@ -294,7 +294,7 @@ func (hs *history) someAttrs() []slog.Attr {
 	if r.Bool() {
 		as = append(as, slog.Int("i", r.Intn(1000)))
 	}
-	if r.Chance(30) {
+	if r.Chance(5) {
 		as = append(as, slog.String("pad", string(make([]byte, r.Intn(3000))))) // NUL bytes: six output bytes each
 	}
 	return as
@@ -394,6 +394,9 @@ func (hs *history) scenario(idx int) {
 	}()
 	failPhase := func() {
 		kind := 1 + r.Intn(nWriteKinds-1)
+		if kind == wkPanic && historyNoPanic {
+			kind = wkErr
+		}
 		k := 1 + r.Intn(8)
 		if kind == wkPanic {
 			k = 1 + r.Intn(2)
@@ -449,6 +452,8 @@ func (hs *history) scenario(idx int) {
 	hs.overlapped(nA)
 }
 
+var historyNoPanic bool
+
 // writeFailureHistories runs n scenarios and emits every finished record as a case.
 func writeFailureHistories(e *hk.Env, n int) int {
 	g := &gen{e.Rng.Fork()}
@@ -473,6 +478,7 @@ func writeFailureHistories(e *hk.Env, n int) int {
 			hung = true
 			stats["history_scenarios_abandoned"]++
 			g = &gen{e.Rng.Fork()} // the abandoned goroutine may still own the old generator
+			historyNoPanic = true  // (most likely a handler that stays locked after a panicking Write: not C01's business)
 		}
 		hs.mu.Lock()
 		done := append([]*caseOut(nil), hs.done...)
@@ -487,7 +493,7 @@ func writeFailureHistories(e *hk.Env, n int) int {
 		if i < 2 && len(done) > 0 && len(done[len(done)-1].writes) == 1 {
 			e.Sample("samples", map[string]any{"history_last_line": string(done[len(done)-1].writes[0])}, 5)
 		}
-		if hung && stats["history_scenarios_abandoned"] >= 2 {
+		if hung && stats["history_scenarios_abandoned"] >= 3 {
 			break
 		}
 	}
